@@ -562,6 +562,20 @@ def write_evidence(prop, tier, seed, hs, results, verdicts, wall, violations, kn
             for st in ex.map(lambda h: sat_stats(results[h["name"]]["slot"], h), cands):
                 if st:
                     sat_sample.append(st)
+    # keep the sample with the result cache: a run answered from the cache (same tree) reports the sample that
+    # was taken when those results were produced
+    sp = os.path.join(WORK, "sat_samples.json")
+    try:
+        store = json.load(open(sp))
+    except Exception:
+        store = {}
+    key = f"{tree_hash()}:{prop}:{tier}"
+    if sat_sample:
+        store = {k: v for k, v in store.items() if k.startswith(tree_hash())}
+        store[key] = sat_sample
+        json.dump(store, open(sp, "w"))
+    elif key in store:
+        sat_sample = [dict(x, reused_from_cache=True) for x in store[key]]
     nontrivial = len({h["name"] for h in ok if results[h["name"]]["checks_total"] > 0
                       and results[h["name"]]["covers_sat"] == results[h["name"]]["covers_total"]})
     ev = {
